@@ -1675,6 +1675,8 @@ class ExtendedToStreamDecorator(CopyStreamResult, StreamSummary, TestControl):
         self._tags = TagContext(self._tags)
 
     def stopTest(self, test):
+        if not self._started:
+            self.startTestRun()
         # NOTE: In Python 3.12.1 skipped tests may not call startTest(): there
         # is then no test-local context to drop, and the run-level one stays.
         if self._tags.parent is not None:
@@ -1769,6 +1771,8 @@ class ExtendedToStreamDecorator(CopyStreamResult, StreamSummary, TestControl):
     @property
     def current_tags(self):
         """The currently set tags."""
+        if not self._started:
+            self.startTestRun()
         return self._tags.get_current_tags()
 
     def tags(self, new_tags, gone_tags):
@@ -1777,6 +1781,8 @@ class ExtendedToStreamDecorator(CopyStreamResult, StreamSummary, TestControl):
         :param new_tags: A set of tags to be added to the stream.
         :param gone_tags: A set of tags to be removed from the stream.
         """
+        if not self._started:
+            self.startTestRun()
         self._tags.change_tags(new_tags, gone_tags)
 
     def _now(self):
@@ -1792,6 +1798,8 @@ class ExtendedToStreamDecorator(CopyStreamResult, StreamSummary, TestControl):
             return self.__now
 
     def time(self, a_datetime):
+        if not self._started:
+            self.startTestRun()
         self.__now = a_datetime
 
     def wasSuccessful(self):
